@@ -77,6 +77,9 @@ def run(ctx, ck) -> None:
                 ck.incomplete('L2', fn, f'{cls.name}.as_matrix matches no dense-form schema of the table', instance=cls.name)
             continue
         ok, why = schema(world, table, cls, fn)
+        if ok is None:
+            ck.incomplete('L2', fn, f'{cls.name}.as_matrix: {why}', instance=cls.name)
+            continue
         ck.expect('L2', ok, fn, why, f'{cls.name}.as_matrix does not have the dense form of its class: {why}', instance=cls.name)
 
     # L2b: a dense form written with the class's own placement helpers is faithful only if mv places the values with
@@ -371,7 +374,8 @@ def s_toeplitz(world, table, cls, fn):
     blockdiag = any(isinstance(n, ast.Call) and world.qualify(module_of(n), n.func) == 'jax.scipy.linalg.block_diag' for n in ast.walk(fn))
     if sig_ok and blockdiag:
         return True, 'per-row dense builder shared with the dense method, vectorised (n),(k)->(n,n), batch rows assembled with block_diag'
-    return False, f'vectorize signature ok={sig_ok}, block_diag over the batch ok={blockdiag}'
+    # the builder is shared, but the batch is handled in a way this schema does not know: a written form, not a refutation
+    return None, f'the dense builder is shared with the dense method, but the batch rows are not assembled in the recognised way (vectorize signature ok={sig_ok}, block_diag over the batch ok={blockdiag}): not decided'
 
 
 SCHEMAS = {
